@@ -146,15 +146,16 @@ def rc_safe(d):
 DELAY_US = 700000
 PRE_MS = 200
 DELAY_FMT = "%{datetime}|%{login}|%{username}|%{eusername}|%{tty_username}|%{group}|%{hostname}|%{domain}|%{ipaddr}|%{cwd}|%{tty}|%{cgroup:1}|%{systemd_unit_name}|%{rpname}|%{cmdline}"
-DELAY_SHAPES = [("file", DELAY_FMT, False, 1), ("file", DELAY_FMT, True, 1), ("devlog", "%{cmdline}", False, 1), ("stdout", "%{username} %{cmdline}", False, 2),
-                ("socket", "%{datetime} %{cmdline}", True, 1)]
+# (output, format, warm-up call first, depth, number of further threads making the same call at the same time)
+DELAY_SHAPES = [("file", DELAY_FMT, False, 1, 0), ("file", DELAY_FMT, True, 1, 0), ("devlog", "%{cmdline}", False, 1, 0), ("file", DELAY_FMT, True, 1, 1),
+                ("stdout", "%{username} %{cmdline}", False, 2, 0), ("socket", "%{datetime} %{cmdline}", True, 1, 2)]
 PIDLINE = __import__("re").compile(r"^(\d+)\s+([a-z_0-9]+)\((.*)$")
 
 
-def delay_ops(out, okind, fmt, warm, depth):
+def delay_ops(out, okind, fmt, warm, depth, nmore=0):
     return [drv.op("x", out + "/log"), drv.op("S", 0, "pty")] + gen.std_sinks(out)[:5] + [drv.op("C", ini_for(out, okind, fmt))] + \
            ([drv.op_exec("e", b"/bin/warm", [b"warmup"], [], ret=-1, err=2)] if warm else []) + [
-            drv.op("I", PRE_MS, depth),
+            drv.op("I", PRE_MS, depth, nmore),
             drv.op_exec("e", b"/bin/B", [b"thread-B-call"], [], ret=-1, err=2, tno=0, callno=0),
             drv.op_exec("e", b"/bin/child", [b"child-call"], [b"C=1"], ret=-1, err=2),
             drv.op_exec("e", b"/bin/P", [b"parent-after"], [], ret=-1, err=2), drv.op("L"), drv.op("G")]
@@ -188,8 +189,10 @@ def thread_b_syscalls(logpath):
 
 
 def delay_eval(os_, events, shape, inj):
-    okind, fmt, warm, depth = shape
-    what = "output %s, format %r, %s, depth %d, second thread delayed by the tracer at %s" % (okind, fmt[:60], "warm" if warm else "first call of the process", depth, inj)
+    okind, fmt, warm, depth = shape[:4]
+    nmore = shape[4] if len(shape) > 4 else 0
+    what = "output %s, format %r, %s, depth %d, %s delayed by the tracer at %s" % (okind, fmt[:60], "warm" if warm else "first call of the process", depth,
+                                                                                   "second thread" if not nmore else "each of %d other threads" % (nmore + 1), inj)
     J = [e for e in events if e.code == "j"]
     if not J:
         raise Inconclusive("traced scenario did not complete (%s)" % what)
@@ -225,13 +228,13 @@ def delay_worker(args):
                 return delay_eval(os_, events, shape, inj + " [" + text[:70] + "]")
             try:
                 inside = once()
-                local.count(("delay", shape[0], shape[2], shape[3], name, ordn) if inside else None,
+                local.count(("delay", shape[0], shape[2], shape[3], shape[4], name, ordn) if inside else None,
                             ["phase2:delayed-inside-libc", "out:" + shape[0], "syscall:" + name, "parked" if inside else "not-parked"], sample=c)
             except Inconclusive as e:
                 local.count(None, ["phase2:inconclusive"])
                 local.inconclusive.append(str(e)[:300])
             except Failure as f:
-                local.count(("delay", shape[0], shape[2], shape[3], name, ordn), ["phase2:delayed-inside-libc", "violating"], sample=c)
+                local.count(("delay", shape[0], shape[2], shape[3], shape[4], name, ordn), ["phase2:delayed-inside-libc", "violating"], sample=c)
                 if local.is_known(f.key):
                     local.known_hit(f.key, f.what)
                     continue
@@ -252,7 +255,7 @@ def delay_worker(args):
 
 def delay_phase(ctx, builds):
     import trace
-    shapes = DELAY_SHAPES[:3] if ctx.quick else DELAY_SHAPES
+    shapes = DELAY_SHAPES[:4] if ctx.quick else DELAY_SHAPES
     per_shape = []
     os_ = trace.OneShot(ctx.run, builds["ts-plain"], "delaydry")
     for shape in shapes:
@@ -266,7 +269,7 @@ def delay_phase(ctx, builds):
             st = len(plans) / 70.0
             plans = [plans[int(i * st)] for i in range(70)]
         per_shape.append((shape, plans))
-    ctx.extra["phase2_syscalls_of_second_thread"] = {s[0] + ("/warm" if s[2] else "/first") + "/d%d" % s[3]: len(p) for s, p in per_shape}
+    ctx.extra["phase2_syscalls_of_second_thread"] = {s[0] + ("/warm" if s[2] else "/first") + "/d%d/threads%d" % (s[3], 1 + s[4]): len(p) for s, p in per_shape}
     # spread the plans over the workers
     nw = 16
     buckets = [[] for _ in range(nw)]
